@@ -74,6 +74,9 @@ func runSolver(sp solverSpec, file string, timeoutMs int) solveResult {
 // would only delay the report of a real failure).
 var secondPass bool
 
+// expectedOpen: names of obligations with a recorded finding (KNOWN_FINDINGS.txt).
+var expectedOpen = map[string]bool{}
+
 // discharge decides one obligation. Stage 1: z3-new alone; stage 2: the
 // other two solvers in parallel. `unsat` from any solver discharges.
 func discharge(ob *Obligation, query string, dir string, timeoutMs int, all bool) {
@@ -274,7 +277,7 @@ func dischargeAll(results []*FuncResult, dir string, timeoutMs int, all bool, wo
 	// only what is still undecided then is reported.
 	var again []job
 	for _, j := range jobs {
-		if j.ob.Expect == "unsat" && (j.ob.Verdict == "unknown" || j.ob.Verdict == "timeout") {
+		if j.ob.Expect == "unsat" && (j.ob.Verdict == "unknown" || j.ob.Verdict == "timeout") && !expectedOpen[j.ob.Name] {
 			again = append(again, j)
 		}
 	}
